@@ -15,8 +15,7 @@
 (* abstract statements, an invocation (build|test, argument list, working   *)
 (* directory), pre-existing artifacts, and the number of times the same     *)
 (* invocation is repeated (a repetition is a fresh process on the disk the  *)
-(* previous one left).  The machine is deterministic for a given project,   *)
-(* except for the order in which link_ops visits the links of a file.       *)
+(* previous one left).  The machine is deterministic for a given project.   *)
 (*                                                                          *)
 (* Solo(f) -- what building f alone in a fresh process must yield -- is a   *)
 (* big-step denotation without caches, frames or locks; the invariants bind *)
@@ -214,7 +213,7 @@ TypeOKProject(p) ==
   /\ \A i \in 1..Len(p.ord) : p.ord[i] \in F
 
 InitSession ==
-  /\ argi = 0 /\ cur = 0 /\ st = "pick" /\ fetch = NoFetch /\ chk = << >> /\ pend = {} /\ found = {}
+  /\ argi = 0 /\ cur = 0 /\ st = "pick" /\ fetch = NoFetch /\ chk = << >> /\ pend = << >> /\ found = {}
   /\ frames = << >> /\ perr = ""
   /\ opCache = {} /\ valCache = {} /\ shapeCache = {} /\ outLock = {} /\ asserts = FreshAsserts
   /\ verdicts = << >> /\ exit = -1
@@ -243,6 +242,20 @@ RtPath(base, f, s) ==
 OpFileOf(key) == IF \E e \in opCache : e.key = PKey(key) THEN (CHOOSE e \in opCache : e.key = PKey(key)).f ELSE 0
 KeyForm(p) == IF Dev("RawPathKeys") THEN PKey(p) ELSE Normalize(p)
 (* the link work list holds path STRINGS (translate.rs OpsMap.links, mod.rs found) *)
+(* byte order of path strings, component by component: `..` < `.` (the byte after `.` is `/`
+   resp. `.`), `.` < `/` < letters; names are single letters, directories p, q, s *)
+Rank(c) == CASE c = ".." -> 1 [] c = "." -> 2 [] c = "/" -> 3
+             [] c = "a" -> 11 [] c = "b" -> 12 [] c = "c" -> 13 [] c = "d" -> 14 [] c = "e" -> 15 [] c = "f" -> 16
+             [] c = "g" -> 17 [] c = "h" -> 18 [] c = "p" -> 26 [] c = "q" -> 27 [] c = "s" -> 29 [] OTHER -> 40
+RECURSIVE PathLess(_, _)
+PathLess(p, q) == IF p = << >> THEN q # << >>
+                  ELSE IF q = << >> THEN FALSE
+                  ELSE IF Rank(Head(p)) # Rank(Head(q)) THEN Rank(Head(p)) < Rank(Head(q))
+                  ELSE PathLess(Tail(p), Tail(q))
+RECURSIVE SortedSeq(_)
+SortedSeq(S) == IF S = {} THEN << >>
+                ELSE LET m == CHOOSE x \in S : \A y \in S : y = x \/ PathLess(x, y)
+                     IN << m >> \o SortedSeq(S \ {m})
 OpRootOf(key) == (CHOOSE e \in opCache : e.key = PKey(key)).root     \* the directory the cached ops were translated for
 LinksOf(root, g) == { RtPath(root, g, s) : s \in ImpStmts(g) }
 EntryKey(f) == FilePath(Lay, f)        \* cwd.join(argument); the driver passes arguments that need no normalisation
@@ -259,16 +272,16 @@ VFrame(f, key, root, istk, kind) ==
 
 (* the file fails: every VM unwinds, FileBuilder::build returns Err *)
 FailFile(cls) ==
-  /\ frames' = << >> /\ chk' = << >> /\ fetch' = NoFetch /\ pend' = {} /\ found' = {}
+  /\ frames' = << >> /\ chk' = << >> /\ fetch' = NoFetch /\ pend' = << >> /\ found' = {}
   /\ perr' = cls /\ st' = "fin"
 
 (* get_ops_for_path succeeded for `fetch` (hit, or parsed + checked + translated) *)
 FetchOk(g, root) ==
   CASE fetch.ctx = "entry" ->
-         /\ st' = "link" /\ pend' = LinksOf(root, g) /\ found' = {}
+         /\ st' = "link" /\ pend' = SortedSeq(LinksOf(root, g)) /\ found' = {}
          /\ fetch' = NoFetch /\ UNCHANGED << frames, perr, evalCount, epoch >>
     [] fetch.ctx = "link" ->
-         /\ st' = "link" /\ found' = found \cup {fetch.key} /\ pend' = pend \cup LinksOf(root, g)
+         /\ st' = "link" /\ found' = found \cup {fetch.key} /\ pend' = pend \o SortedSeq(LinksOf(root, g))
          /\ fetch' = NoFetch /\ UNCHANGED << frames, perr, evalCount, epoch >>
     [] OTHER ->   \* import: VM::with_pointer(...).with_import_stack(import_stack.clone()); vm.run
          /\ st' = "run" /\ fetch' = NoFetch
@@ -373,18 +386,28 @@ StaticEnd ==                      \* silent: a Checker finished its statement li
   /\ UNCHANGED StaticUnch
 
 (* ---- build/mod.rs link_ops -------------------------------------------------- *)
-Link(k) ==                        \* silent: next link of the work list; its ops_cache event follows
-  /\ st = "link" /\ fetch.ctx = "" /\ k \in pend \ found
-  /\ fetch' = [key |-> k, ctx |-> "link"]
-  /\ UNCHANGED << proj, round, argi, cur, st, chk, pend, found, frames, perr, opCache, valCache, shapeCache,
+(* links: a BTreeMap of path strings, pushed in ascending order on a Vec that is popped *)
+(* from its end; the links of a freshly fetched file are pushed on top (depth first)     *)
+Link ==                           \* silent: pop the next link; its ops_cache event follows
+  /\ st = "link" /\ fetch.ctx = "" /\ pend # << >> /\ pend[Len(pend)] \notin found
+  /\ fetch' = [key |-> pend[Len(pend)], ctx |-> "link"]
+  /\ pend' = SubSeq(pend, 1, Len(pend) - 1)
+  /\ UNCHANGED << proj, round, argi, cur, st, chk, found, frames, perr, opCache, valCache, shapeCache,
+                  outLock, asserts, disk, diskPre, verdicts, exit, evalCount, importResult, outSnap,
+                  convFailed, epoch, past >>
+
+LinkSkip ==                       \* silent: `if found.contains(&link) { continue; }`
+  /\ st = "link" /\ fetch.ctx = "" /\ pend # << >> /\ pend[Len(pend)] \in found
+  /\ pend' = SubSeq(pend, 1, Len(pend) - 1)
+  /\ UNCHANGED << proj, round, argi, cur, st, fetch, chk, found, frames, perr, opCache, valCache, shapeCache,
                   outLock, asserts, disk, diskPre, verdicts, exit, evalCount, importResult, outSnap,
                   convFailed, epoch, past >>
 
 LinkDone ==                       \* silent: everything linked, the entry VM starts (eval_ops)
-  /\ st = "link" /\ fetch.ctx = "" /\ pend \subseteq found
+  /\ st = "link" /\ fetch.ctx = "" /\ pend = << >>
   /\ st' = "run" /\ frames' = << VFrame(cur, EntryKey(cur), OpRootOf(EntryKey(cur)), << >>, "entry") >>
-  /\ pend' = {} /\ found' = {}
-  /\ UNCHANGED << proj, round, argi, cur, fetch, chk, perr, opCache, valCache, shapeCache, outLock, asserts, disk,
+  /\ found' = {}
+  /\ UNCHANGED << proj, round, argi, cur, fetch, chk, pend, perr, opCache, valCache, shapeCache, outLock, asserts, disk,
                   diskPre, verdicts, exit, evalCount, importResult, outSnap, convFailed, epoch, past >>
 
 (* ---- the VM of one file, statement by statement ------------------------------ *)
@@ -547,7 +570,7 @@ Restart ==                        \* the same invocation again: a fresh process 
   /\ st = "done" /\ round < Repeat /\ exit # 134
   /\ round' = round + 1
   /\ past' = Append(past, [verdicts |-> verdicts, exit |-> exit, disk |-> disk])
-  /\ argi' = 0 /\ cur' = 0 /\ st' = "pick" /\ fetch' = NoFetch /\ chk' = << >> /\ pend' = {} /\ found' = {}
+  /\ argi' = 0 /\ cur' = 0 /\ st' = "pick" /\ fetch' = NoFetch /\ chk' = << >> /\ pend' = << >> /\ found' = {}
   /\ frames' = << >> /\ perr' = ""
   /\ opCache' = {} /\ valCache' = {} /\ shapeCache' = {} /\ outLock' = {} /\ asserts' = FreshAsserts
   /\ verdicts' = << >> /\ exit' = -1
@@ -559,7 +582,7 @@ Static == StaticTyErr \/ StaticHit \/ StaticCycle \/ StaticBegin \/ StaticEnd
 StaticResolve == Static
 CoreNext ==
   \/ NextFile \/ BeginFile \/ OpsHit \/ OpsMiss \/ Static
-  \/ (\E k \in pend \ found : Link(k)) \/ LinkDone      \* link order: that of a BTreeMap of path strings -- left open here
+  \/ Link \/ LinkSkip \/ LinkDone
   \/ StmtStep \/ StmtErr \/ ImportHit \/ ImportCycle \/ ImportBegin \/ Crash \/ ImportEnd \/ Include
   \/ AssertRecord \/ OutLock \/ OutCreate \/ OutWriteOk \/ OutWriteFail
   \/ RunDone \/ EndFile \/ Exit \/ Restart
@@ -621,14 +644,15 @@ N_RunDone == RunDone /\ Hist
 N_EndFile == EndFile /\ Hist
 N_Exit == Exit /\ Hist
 N_Restart == Restart /\ Hist
-N_Link == (\E k \in pend \ found : Link(k)) /\ Hist
+N_Link == Link /\ Hist
+N_LinkSkip == LinkSkip /\ Hist
 Next ==
   \/ N_NextFile \/ N_BeginFile \/ N_OpsHit \/ N_OpsMiss \/ N_StaticTyErr \/ N_StaticHit
   \/ N_StaticCycle \/ N_StaticBegin \/ N_StaticEnd \/ N_LinkDone \/ N_StmtStep \/ N_StmtErr
   \/ N_ImportHit \/ N_ImportCycle \/ N_ImportBegin \/ N_Crash \/ N_ImportEnd \/ N_Include
   \/ N_AssertRecord \/ N_OutLock \/ N_OutCreate \/ N_OutWriteOk \/ N_OutWriteFail \/ N_RunDone
   \/ N_EndFile \/ N_Exit \/ N_Restart
-  \/ N_Link
+  \/ N_Link \/ N_LinkSkip
 
 Spec == Init /\ [][Next]_vars
 
